@@ -441,6 +441,13 @@ def r4_r5(run: Run, src):
     for st in ast.walk(fi.node):
         if isinstance(st, ast.Assign) and isinstance(st.targets[0], ast.Name):
             assigned[st.targets[0].id] = st.value
+    # a list that is filled by one append in one loop is read as the comprehension it spells out
+    for lp in [n for n in ast.walk(fi.node) if isinstance(n, ast.For)]:
+        apps = [c for c in ast.walk(lp) if isinstance(c, ast.Call) and isinstance(c.func, ast.Attribute) and c.func.attr == 'append' and
+                isinstance(c.func.value, ast.Name) and len(c.args) == 1]
+        if len(apps) == 1 and isinstance(assigned.get(apps[0].func.value.id), ast.List) and not assigned[apps[0].func.value.id].elts:
+            assigned[apps[0].func.value.id] = ast.ListComp(elt=apps[0].args[0], generators=[
+                ast.comprehension(target=lp.target, iter=lp.iter, ifs=[], is_async=0)])
     for r in rets:
         v = r.value
         shape = _shape_of(v, assigned)
